@@ -166,8 +166,14 @@ TLoad ==
     /\ Step(Failing([LD_Current |-> Ev.curSame, LD_History |-> Ev.histSame, LD_Counters |-> Ev.countersSame,
                      LD_Rng |-> Ev.rngSame, LD_Known |-> Ev.known]))
 
+\* the caller overwrote everything a public accessor returned and re-read the state: nothing observable may have changed
+TAccessor ==
+    /\ IsEvent("Accessor")
+    /\ UNCHANGED vars
+    /\ Step(Failing([AC_Stable |-> Ev.stable]))
+
 TraceNext ==
-    \/ TSaveBegin \/ TSaveEnd \/ TLoad
+    \/ TAccessor \/ TSaveBegin \/ TSaveEnd \/ TLoad
     \/ TRunBegin \/ TReweight \/ TTrain \/ TResample \/ TMutatePrior \/ TMutateBegin
     \/ TSweep \/ TMutateEnd \/ TCommit \/ TTerminate \/ TRaised \/ TPosterior
 
